@@ -48,6 +48,7 @@ func VerifC16EncodeIdent(name string) string { return encodeIdent(name) }
 type VerifC16Scopes struct {
 	ctxs []*funcContext
 	vars map[int]*types.Var
+	objs map[int]types.Object
 	pkg  *types.Package
 }
 
@@ -133,4 +134,28 @@ func (s *VerifC16Scopes) VarPtrName(scope int, varID int, name string, pkgLevel 
 		s.vars[varID] = v
 	}
 	return s.ctxs[scope].varPtrName(v), ""
+}
+
+// ObjectName is funcContext.objectName on scope `scope` for the object with identity `objID`: with pkgLevel a
+// named type declared in a function body (a *types.TypeName, which is package-level in the generated code),
+// otherwise a local variable. The same object is used for the same id.
+func (s *VerifC16Scopes) ObjectName(scope int, objID int, name string, pkgLevel bool) (res string, panicMsg string) {
+	defer func() {
+		if r := recover(); r != nil {
+			res, panicMsg = "", fmt.Sprint(r)
+		}
+	}()
+	if s.objs == nil {
+		s.objs = map[int]types.Object{}
+	}
+	o, ok := s.objs[objID]
+	if !ok {
+		if pkgLevel {
+			o = types.NewTypeName(0, nil, name, nil)
+		} else {
+			o = types.NewVar(0, nil, name, types.Typ[types.Int])
+		}
+		s.objs[objID] = o
+	}
+	return s.ctxs[scope].objectName(o), ""
 }
